@@ -39,6 +39,7 @@
  * then " | same <0/1>": the data fields of the three modes are byte-identical.
  */
 // EXCLUDE: json_tokener.c
+// EXCLUDE: json_object.c
 // RENAME-ALLOC
 #include <locale.h>
 #include <unistd.h>
@@ -52,7 +53,7 @@ static locale_t c14_duplocale(locale_t l)
 	locale_t r;
 	if (lc_fault == 1) { errno = ENOMEM; return (locale_t)0; }
 	r = duplocale(l);
-	if (r) lc_created++;
+	if (r) __atomic_fetch_add(&lc_created, 1, __ATOMIC_RELAXED);
 	return r;
 }
 static locale_t c14_newlocale(int mask, const char *name, locale_t base)
@@ -60,18 +61,18 @@ static locale_t c14_newlocale(int mask, const char *name, locale_t base)
 	locale_t r;
 	if (lc_fault == 2) { errno = ENOMEM; return (locale_t)0; }
 	r = newlocale(mask, name, base);
-	if (r && !base) lc_created++;      /* with a base, the base object is absorbed into the result */
+	if (r && !base) __atomic_fetch_add(&lc_created, 1, __ATOMIC_RELAXED);      /* with a base, the base object is absorbed into the result */
 	return r;
 }
 static void c14_freelocale(locale_t l)
 {
-	if (!l) { lc_free_null++; return; }    /* glibc would crash */
-	lc_freed++;
+	if (!l) { __atomic_fetch_add(&lc_free_null, 1, __ATOMIC_RELAXED); return; }    /* glibc would crash */
+	__atomic_fetch_add(&lc_freed, 1, __ATOMIC_RELAXED);   /* atomic: a library that calls these from the serializer does so in concurrent threads (op M) */
 	freelocale(l);
 }
 static locale_t c14_uselocale(locale_t l)
 {
-	lc_uselocale_calls++;
+	__atomic_fetch_add(&lc_uselocale_calls, 1, __ATOMIC_RELAXED);
 	return uselocale(l);
 }
 #define duplocale c14_duplocale
@@ -79,12 +80,22 @@ static locale_t c14_uselocale(locale_t l)
 #define freelocale c14_freelocale
 #define uselocale c14_uselocale
 #include "json_tokener.c"
+/* the serializer side is compiled under the same interposition: the unchanged json_object.c makes no
+ * locale call at all (tr/locale_exits.py checks that on the source), so the counters stay 0 across
+ * json_object_to_json_string_ext — successful or failing */
+#include "json_object.c"
 #undef duplocale
 #undef newlocale
 #undef freelocale
 #undef uselocale
 
 const char *DOMAIN = "loc";
+
+/* The S/M ops hand snprintf formats that are malformed on purpose ("%", "%.", "%y": the failing paths of the
+ * serializer).  ASan's printf interceptor parses every format itself and aborts with an internal CHECK on some of
+ * them (sanitizer_common_interceptors_format.inc:507, it reads past the directive) — a sanitizer artefact, not a
+ * library fault: switch that parser off for this driver. */
+const char *__asan_default_options(void) { return "check_printf=0"; }
 #define LOCNAME "xx_COMMA"
 
 static locale_t comma_loc;
@@ -384,6 +395,7 @@ struct mt_thr {
 	struct json_object *tree;
 	struct json_tokener *tok;
 	const char *ref; size_t reflen;   /* expected text of the own tree */
+	int ref_null;                     /* … or the serialization is expected to fail (NULL) */
 	const char *ref2; size_t ref2len; /* expected text of parse(ref): the retained source texts are echoed */
 	const char *ref3; size_t ref3len; /* expected text of parse(ref) after json_object_set_double on every double: formatted again */
 	long iters, pevery; int flags;
@@ -416,7 +428,7 @@ static void *mt_worker(void *arg)
 		size_t len = 0;
 		const char *s = json_object_to_json_string_length(t->tree, t->flags, &len);
 		t->nser++;
-		if (!s || len != t->reflen || memcmp(s, t->ref, len) != 0) {
+		if (t->ref_null ? s != NULL : (!s || len != t->reflen || memcmp(s, t->ref, len) != 0)) {
 			t->mism++;
 			mt_note(t, 'S', s ? s : "", s ? len : 0, t->ref, t->reflen);
 		}
@@ -466,7 +478,7 @@ static void run_threads(char *save)
 	pthread_t th[MT_MAX];
 	char *ref = NULL, *ref2 = NULL, *ref3 = NULL;
 	size_t reflen = 0, ref2len = 0, ref3len = 0;
-	int n, i, flags, bad = 0;
+	int n, i, flags, bad = 0, ref_null = 0;
 	long mism = 0, pmism = 0, perr = 0, nser = 0, npar = 0, lbad = 0, leak;
 	struct mt_thr *first = NULL;
 	if (!var || !nt || !its || !pe || !fl || !jt) { printf("BADLINE"); return; }
@@ -485,9 +497,10 @@ static void run_threads(char *save)
 		size_t len = 0;
 		const char *s = json_object_to_json_string_length(trees[0], flags, &len);
 		struct json_tokener *tk = json_tokener_new();
-		struct json_object *o2;
-		ref = (char *)malloc(len + 1); memcpy(ref, s, len); ref[len] = 0; reflen = len;
-		o2 = json_tokener_parse_ex(tk, ref, -1);
+		struct json_object *o2 = NULL;
+		if (!s) { ref_null = 1; len = 0; }      /* the format in effect makes the serialization fail: every thread must get NULL too */
+		ref = (char *)malloc(len + 1); if (s) memcpy(ref, s, len); ref[len] = 0; reflen = len;
+		if (s) o2 = json_tokener_parse_ex(tk, ref, -1);
 		if (o2) {
 			s = json_object_to_json_string_length(o2, flags, &len);
 			ref2 = (char *)malloc(len + 1); memcpy(ref2, s, len); ref2[len] = 0; ref2len = len;
@@ -509,7 +522,7 @@ static void run_threads(char *save)
 		if (xa_count != c0) bad = 2;
 		T[i].id = i; T[i].tree = trees[i];
 		T[i].role = var[0] == 't' ? (i % 2 == 0 ? 0 : 1) : var[0] == 'g' ? (i % 2 == 0 ? 1 : 2) : (i % 3);
-		T[i].ref = ref; T[i].reflen = reflen; T[i].ref2 = ref2; T[i].ref2len = ref2len; T[i].ref3 = ref3; T[i].ref3len = ref3len;
+		T[i].ref = ref; T[i].reflen = reflen; T[i].ref_null = ref_null; T[i].ref2 = ref2; T[i].ref2len = ref2len; T[i].ref3 = ref3; T[i].ref3len = ref3len;
 		T[i].iters = atol(its); T[i].pevery = ref2 ? atol(pe) : 0; T[i].flags = flags;
 		T[i].tok = json_tokener_new();
 	}
